@@ -103,6 +103,11 @@ def cases(tier):
             for ax in axes:
                 cs.append(C("s/%s/%s/axis=%s" % (f, shp, ax), "out = mg.%s(x, axis=%r)" % (f, ax), [("x", shp)],
                             assume="ne(x, 0)" if f == "cumprod" else None))
+    for f in ("sum", "prod", "max", "min", "cumsum", "cumprod"):
+        for ax in (0, -1):
+            cs.append(C("s/%s/()/axis=%d" % (f, ax), "out = mg.%s(x, axis=%d)" % (f, ax), [("x", ())],
+                        assume="ne(x, 0)" if "prod" in f else None))
+    cs.append(C("s/sum/()/axis=0/kd", "out = mg.sum(x, axis=0, keepdims=True)", [("x", ())]))
     cs.append(C("s/sum/method", "out = x.sum(axis=1)", [("x", (2, 2))]))
     cs.append(C("s/mean/method", "out = x.mean(axis=(0,1), keepdims=True)", [("x", (2, 2))]))
     cs.append(C("s/sum/F-layout", "out = mg.sum(x, axis=0)", [("x", (2, 3), "F")]))
